@@ -137,6 +137,9 @@ pub fn ref_dependencies(
     let mut shadow: BTreeMap<u64, f64> = x.clone();
     let mut certified_all: BTreeMap<u64, bool> = BTreeMap::new();
     let mut out = BTreeMap::new();
+    // magnitudes without cancellation, propagated through chains: a dependent value that is small by
+    // cancellation still carries (and passes on) the rounding of its large terms
+    let mut mags: BTreeMap<u64, Q> = known.iter().map(|(k, v)| (*k, v.abs())).collect();
     let mut remaining: BTreeSet<u64> = deps.keys().cloned().collect();
     loop {
         let mut progressed = false;
@@ -147,11 +150,11 @@ pub fn ref_dependencies(
             // a dependency may only use values that exist and are not themselves unresolved dependents
             if occ.iter().all(|i| known.contains_key(i) && !remaining.contains(i)) {
                 let v = canon_function(f).eval(&known).expect("ids known");
-                let absx: BTreeMap<u64, Q> = known.iter().map(|(k, v)| (*k, v.abs())).collect();
-                let mag = abs_stored_poly(f).eval(&absx).unwrap_or_else(Q::zero);
+                let mag = abs_stored_poly(f).eval(&mags).unwrap_or_else(Q::zero);
                 let cert = eval_is_exact(&stored_terms(f), &shadow) && occ.iter().all(|i| *certified_all.get(i).unwrap_or(&true));
                 let vf = q_to_f64(&v);
                 let cert = cert && f64_eq_q(vf, &v);
+                mags.insert(id, if mag > v.abs() { mag.clone() } else { v.abs() });
                 known.insert(id, v.clone());
                 shadow.insert(id, vf);
                 certified_all.insert(id, cert);
